@@ -32,6 +32,17 @@ func runC17(w *World, r *Report) {
 	r.Rule("errprop", "errors of the lookup and of the width check reach the caller; no return is (nil, nil)", 4)
 	r.Rule("maskform", "the window mask helper yields exactly 'length ones starting at bit start' on every path", 1)
 	r.Rule("maskcheck", "a value with a bit outside the mask takes the error return", 1)
+	r.Rule("convform", "the value converter hands the big integer exactly the argument's own value (no transformation per input shape)", 3)
+	convFormRule(w, r)
+	r.Rule("fresh", "the builders' helpers hand out no object held in package-level storage", 1)
+	{
+		r2 := NewReport(r.Prop, r.Tier)
+		escapeRule(w, r2, nil)
+		for _, o := range r2.Obs {
+			o.Rule = "fresh"
+			r.Add(o)
+		}
+	}
 	nb := w.Funcs["openflow13.NewMatchField"]
 	if nb == nil {
 		r.Fail(VViolation, "errprop", "openflow13.NewMatchField", "", "-", "the generic builder openflow13.NewMatchField no longer exists (anchor cannot be resolved)")
@@ -447,4 +458,110 @@ func runC17(w *World, r *Report) {
 	checkBlock(nb.Decl.Body.List)
 	r.Stats["fallible_calls_in_builder"] = nFallible
 	r.Stats["returns_in_builder"] = nRet
+}
+
+// convFormRule: in the converter that turns the builder's value argument into a big integer, every value
+// handed to a Set* method of the result is the argument itself read through the reflect accessor of its
+// kind (vi.Int(), vi.Uint(), vi.Bytes(), vi.Interface().(*big.Int)) — not something computed from it. A
+// transformation applied to some input shapes (a 16-byte address folded to 4 bytes) silently builds another
+// match than the one asked for.
+func convFormRule(w *World, r *Report) {
+	fi := w.Funcs["openflow13.conv"]
+	if fi == nil {
+		r.Fail(VViolation, "convform", "openflow13.conv", "", "-", "the value converter openflow13.conv no longer exists (anchor cannot be resolved)")
+		return
+	}
+	info := fi.Pkg.TypesInfo
+	var param types.Object
+	for _, fl := range fi.Decl.Type.Params.List {
+		for _, nm := range fl.Names {
+			param = info.Defs[nm]
+		}
+	}
+	// locals holding reflect.ValueOf(param)
+	rv := map[types.Object]bool{}
+	assigns := map[types.Object]int{}
+	ast.Inspect(fi.Decl.Body, func(n ast.Node) bool {
+		as, ok := n.(*ast.AssignStmt)
+		if !ok {
+			return true
+		}
+		for i, l := range as.Lhs {
+			o := identObj(info, l)
+			if o == nil {
+				continue
+			}
+			assigns[o]++
+			if i < len(as.Rhs) {
+				if c, ok := unparen(as.Rhs[i]).(*ast.CallExpr); ok {
+					if fn, ok := typeutil.Callee(info, c).(*types.Func); ok && fn.FullName() == "reflect.ValueOf" && len(c.Args) == 1 && identObj(info, c.Args[0]) == param {
+						rv[o] = true
+					}
+				}
+			}
+		}
+		return true
+	})
+	// direct: vi.X() or vi.Interface().(T) or the parameter itself
+	var direct func(e ast.Expr, depth int) bool
+	direct = func(e ast.Expr, depth int) bool {
+		e = unparen(e)
+		switch x := e.(type) {
+		case *ast.Ident:
+			o := info.Uses[x]
+			if o == param {
+				return true
+			}
+			// a local assigned exactly once, from a direct read
+			if o != nil && assigns[o] == 1 && depth < 2 {
+				ok := false
+				ast.Inspect(fi.Decl.Body, func(n ast.Node) bool {
+					if as, isAs := n.(*ast.AssignStmt); isAs {
+						for i, l := range as.Lhs {
+							if identObj(info, l) == o && i < len(as.Rhs) && direct(as.Rhs[i], depth+1) {
+								ok = true
+							}
+						}
+					}
+					return true
+				})
+				return ok
+			}
+		case *ast.TypeAssertExpr:
+			return direct(x.X, depth)
+		case *ast.CallExpr:
+			if se, ok := unparen(x.Fun).(*ast.SelectorExpr); ok && len(x.Args) == 0 {
+				if o := identObj(info, se.X); o != nil && rv[o] {
+					return true
+				}
+			}
+			// a conversion of a direct read
+			if tv, ok := info.Types[x.Fun]; ok && tv.IsType() && len(x.Args) == 1 {
+				return direct(x.Args[0], depth)
+			}
+		}
+		return false
+	}
+	n := 0
+	ast.Inspect(fi.Decl.Body, func(nd ast.Node) bool {
+		c, ok := nd.(*ast.CallExpr)
+		if !ok {
+			return true
+		}
+		fn, ok := typeutil.Callee(info, c).(*types.Func)
+		if !ok || fn.Pkg() == nil || fn.Pkg().Path() != "math/big" || !strings.HasPrefix(fn.Name(), "Set") || len(c.Args) != 1 {
+			return true
+		}
+		n++
+		inst := fn.Name()
+		if direct(c.Args[0], 0) {
+			r.OK("convform", fi.Key, inst, w.Pos(c.Pos()), "(*big.Int)."+fn.Name()+" receives the argument's own value through its reflect accessor", true)
+		} else {
+			r.Fail(VViolation, "convform", fi.Key, inst, w.Pos(c.Pos()), "(*big.Int)."+fn.Name()+" receives "+types.ExprString(c.Args[0])+", which is not the argument's own value read through its reflect accessor: some inputs are transformed before they are placed, so the field built is not the one asked for")
+		}
+		return true
+	})
+	if n == 0 {
+		r.Fail(VUndecided, "convform", fi.Key, "", w.Pos(fi.Decl.Pos()), "the converter no longer sets the result through (*big.Int).Set* calls")
+	}
 }
